@@ -133,6 +133,15 @@ class Sim:
         self.s.setdefault("exe_count", {})
         self.s["exe_count"][exe] = self.s["exe_count"].get(exe, 0) + 1
         entry = dict(op="call", exe=exe, argv=list(argv), idx=idx)
+        if fault == "banner":
+            # not a failure: the command works, and the site's submission filter (LSF esub) prints lines of its own around the answer
+            entry["fault"] = fault
+            self.s["journal"].append(entry)
+            fn = getattr(self, "_" + self.kind + "_" + exe)
+            rc, out, err = fn(list(argv), stdin or "")
+            if rc == 0:
+                out = "Memory reservation is (MB): 1024\n" + out + "Job will be run in the default project.\n"
+            return rc, out, err
         if fault:
             entry["fault"] = fault
             self.s["journal"].append(entry)
